@@ -857,7 +857,7 @@ func init() {
 		ID:    "C05",
 		Level: "exploration",
 		Rule: "report-class profiles (as C04) x granularity x noinlines x sample_index x 4 trim points: nodecount in {0,1,2,3,5,n-1,n,n+1}, nodefraction placed just below/at/above an actual |cum|/sum(flat) ratio (or 0, .005, .3, 1, 2), edgefraction around an actual edge ratio, flat/cum sort; rendered as -top, -tree, -dot and -dot -call_tree through the real driver; part legend: -top and -tree under -mean, -base and -diff_base (where entry values can exceed the report total) with random nodecount/nodefraction: 'accounting for' must equal the sum of the flat values shown. part paths: file names given prefixes that trim_path / source_path rewrite (including a directory name repeated in a row), file-bearing granularities, -top and -tree at 3 trim points: every trimmed row is a row of pprof's own untrimmed report of the same options and exactly min(N, #{|cum|>=cutoff}) rows are shown; text reports are also run with call_tree set, which must change nothing. part interactive: 'top N', 'top N -cum' and 'top' typed into a fresh interactive session must print the table pprof -top -nodecount=N prints (10 for the bare command). " +
-			"oracle: shown entries carry their untrimmed flat/cum; text reports show exactly min(N, #{|cum|>=cutoff}) entries, none below the cutoff, no hidden eligible entry outranking a shown one, rows ordered by the sort magnitude; legends (accounting for, Dropped K nodes, top N of M) match; every edge joins shown entries; solid edges carry the untrimmed direct adjacency weight, dotted edges the adjacency over the shown entries with at least one bypassing sample; -tree completeness at the edge cutoff; call trees: <=1 parent, edge weight = child's cum, every node matches a distinct untrimmed tree node. non-trivial = at least 2 untrimmed entries; distinct = profile shape",
+			"oracle: shown entries carry their untrimmed flat/cum; text reports show exactly min(N, #{|cum|>=cutoff}) entries, none below the cutoff, no hidden eligible entry outranking a shown one, rows ordered by the sort magnitude; legends (accounting for, Dropped K nodes, top N of M) match; every edge joins shown entries; solid edges carry the untrimmed direct adjacency weight, dotted edges the adjacency over the shown entries with at least one bypassing sample; -tree completeness at the edge cutoff; call trees: <=1 parent, edge weight = child's cum, every node matches a distinct untrimmed tree node. part bigtext: profiles of 520-700 functions, none below a cutoff; -top with nodecount 0, n-10, 501 and 80: exactly min(nodecount, n) rows are printed (all n for 0) and the legend accounts for the sum of the rows shown. non-trivial = at least 2 untrimmed entries; distinct = profile shape",
 		Assumptions:   []string{"node cutoff = |trunc(sum of untrimmed flat x nodefraction)|, edge cutoff likewise (documented rule)", "cases in which two untrimmed entries share a printable name are skipped (entries are identified by name in the output)", "graphical reports pick survivors heuristically: only invariance, cutoff and nodecount bound are checked for -dot"},
 		Parts:         []harness.Part{{Name: "trim", Quick: 8000, Thor: 200000, Run: runCase}, {Name: "interactive", Quick: 150, Thor: 4000, Run: runInteractive}, {Name: "legend", Quick: 1500, Thor: 60000, Run: runLegend}, {Name: "paths", Quick: 1200, Thor: 40000, Run: runPaths}, {Name: "bigtext", Quick: 12, Thor: 300, Run: runBigText}},
 		MinNonTrivial: func(string) int { return 300 },
